@@ -17,7 +17,9 @@ RULE = ("Hypothesis draws an invertible, well-conditioned operator tree over eve
         "branch of Auto (CG / GMRES). Oracle: normwise backward error of inv(A,alg) @ b and solve(A,b,alg) (bitwise equal on "
         "direct paths); inv(A) is a LinearOperator of A's shape whose dense form equals inv(M); on non-iterative paths also "
         "inv(A).T, inv(A).H and b @ inv(A). Non-trivial: a structural rule, an explicit algorithm, or a complex/multi-column "
-        "system.")
+        "system. Right-hand sides are rescaled by 10^-6..10^6; the same inverse operator is then applied to a second "
+        "right-hand side of the same shape and another scale, and to the first one again (each product must be a solution); "
+        "the caller's right-hand side must be unchanged.")
 ASSUMPTIONS = [
     "direct paths: |A x - b| <= 1e3 n eps (|A||x| + |b|) with eps of the coarsest dtype in the tree; inverse matrix to 1e3 eps cond; iterative paths: |A x - b| <= 20 tol |b| cond-free plus the direct bound",
     "in-contract refusals (AssertionError: CG / Cholesky on operators not declared PSD) are tallied, not failures",
@@ -36,7 +38,7 @@ def configure(tier, opts):
 def cases(draw, tier):
     if draw(st.integers(1, 400 if tier == "quick" else 120)) == 1:
         return {"mode": "large", "n": draw(st.integers(1024, 1100)), "psd": draw(st.booleans()), "seed": draw(st.integers(0, 10**6)),
-                "alg": draw(st.sampled_from(["omitted", "Auto", "Auto(kw)"])), "ncol": draw(st.sampled_from([0, 2]))}
+                "alg": draw(st.sampled_from(["omitted", "Auto", "Auto(kw)"])), "ncol": draw(st.sampled_from([0, 2])), "bscale": draw(st.sampled_from([0, 3, -3]))}
     g = gen.TraitGen(draw, avoid=AVOID | {"fft", "hh"})
     n = g.integer(1, 8)
     depth = g.pick([0, 1, 1, 2, 2, 3])
@@ -45,7 +47,8 @@ def cases(draw, tier):
     tree = g.sq(n, trait, depth)
     dts = gen.ALLDT
     return {"mode": "tree", "tree": tree, "alg": alg, "trait": trait, "tol_exp": g.pick([-10, -8, -6]), "extra_iters": g.integer(0, 5),
-            "b": g.operand(n, dtypes=dts), "bl": g.left_operand(n, dtypes=dts), "declare": g.boolean()}
+            "b": g.operand(n, dtypes=dts), "bl": g.left_operand(n, dtypes=dts), "declare": g.boolean(),
+            "bscale": g.pick([0, 0, 0, -6, -3, 2, 4, 6]), "b2scale": g.pick([0, -6, -3, 3])}
 
 
 def strategy(tier):
@@ -76,7 +79,7 @@ def large_case(case, out):
     if case["psd"]:
         A = cola.PSD(A)
     shape = (n, ) if case["ncol"] == 0 else (n, case["ncol"])
-    b = rng.standard_normal(shape)
+    b = rng.standard_normal(shape) * 10.0 ** case.get("bscale", 0)
     alg = {"omitted": None, "Auto": L.Auto(), "Auto(kw)": L.Auto(tol=1e-8, max_iters=200)}[case["alg"]]
     out.label("mode:large", "alg:" + case["alg"], "psd:" + str(case["psd"]))
     out.nontrivial = True
@@ -116,6 +119,10 @@ def check(case, out):
     alg = make_alg(case["alg"], n, tol, case["extra_iters"])
     iterative = case["alg"] in ("CG", "GMRES")
     b, bl = IR.dec(case["b"]), IR.dec(case["bl"])
+    if case.get("bscale"):
+        b = (b * 10.0 ** case["bscale"]).astype(b.dtype)
+        out.label("bscale:%d" % case["bscale"])
+    b_copy = b.copy()
     M = R.M.astype(np.complex128 if (R.dtype.kind == "c") else np.float64)
     eps = max(IR.tree_eps(tree), oracle.eps_of(b.dtype), oracle.eps_of(R.dtype))
     normM = max(np.linalg.norm(M, 2), 1e-300)
@@ -144,7 +151,7 @@ def check(case, out):
     x1 = guarded("inv_apply", lambda: np.asarray(Ainv @ b))
     x2 = guarded("solve", lambda: np.asarray(L.solve(A, b, *extra)))
 
-    def residual_ok(sub, x):
+    def residual_ok(sub, x, b=b):
         if x is None:
             return
         if x.shape != b.shape or not np.all(np.isfinite(x)):
@@ -161,6 +168,16 @@ def check(case, out):
 
     residual_ok("inv_apply", x1)
     residual_ok("solve", x2)
+    # the same inverse operator applied again: to a second right-hand side of the same shape and another scale (each
+    # product is a fresh solve), then to the first one again (again a solution)
+    if x1 is not None:
+        b2 = ((b_copy[::-1] + 1) * 10.0 ** (case.get("b2scale", 0) - case.get("bscale", 0))).astype(b.dtype)
+        x3 = guarded("inv_apply_second", lambda: np.asarray(Ainv @ b2))
+        residual_ok("inv_apply_second", x3, b2)
+        x4 = guarded("inv_apply_repeat", lambda: np.asarray(Ainv @ b))
+        residual_ok("inv_apply_repeat", x4)
+    if not np.array_equal(b, b_copy):
+        out.fail("rhs", site, "mutated", "the caller's right-hand side changed")
     if not iterative and x1 is not None and x2 is not None and x1.shape == x2.shape and not np.array_equal(x1, x2):
         out.fail("solve", site, "differs_from_inv", f"max diff {np.abs(x1 - x2).max():.3e}")
     Minv = np.linalg.inv(M)
